@@ -8,3 +8,11 @@ import Dtr.Props.C10
 #print axioms Dtr.C10_accepted_never_panics
 #print axioms Dtr.C10_named_conditions
 #print axioms Dtr.C10_eval_error_is_item
+#print axioms Dtr.C10_next_no_panic_any_item
+#print axioms Dtr.C10_run_no_panic_continued
+#print axioms Dtr.C10_continued_same_items
+#print axioms Dtr.C10_failed_statement_is_skipped
+#print axioms Dtr.C10_failed_while_is_retried
+#print axioms Dtr.C10_eval_error_keeps_rows
+#print axioms Dtr.C10_accepted_never_panics_continued
+#print axioms Dtr.rngAfter_of_ok
